@@ -292,3 +292,24 @@ Qed.
 Lemma adts_junk_188_refused :
   decode_adts (junk_zero 188 ++ encode_adts (len_header 371)) = Err.
 Proof. vm_compute. reflexivity. Qed.
+
+(* ---------- ADTSHeader.Frequency ---------- *)
+(* the accessor returns uint16: exact for the table frequencies below 65536 ... *)
+Lemma adts_frequency_exact f ch pl h :
+  new_adts f ch AAClc pl = Ok h -> (f < 65536)%Z -> Z.of_N (adts_frequency h) = f.
+Proof.
+  unfold new_adts. change (negb (AAClc =? AAClc)) with false. cbv beta iota.
+  destruct (index_of_freq f) as [i|] eqn:E; [|discriminate].
+  intros [= <-] Hf. unfold adts_frequency. cbn [h_sfi].
+  unfold index_of_freq, reverse_frequencies in E. cbn [lookup_freq] in E.
+  repeat (match type of E with context [(?k =? f)%Z] => destruct (Z.eqb_spec k f) as [<- | _] end;
+          [injection E as <-; first [reflexivity | lia]|]).
+  discriminate.
+Qed.
+
+(* ... and wrong for 88200 and 96000 Hz (indices 1 and 0): the faithful model refutes exactness *)
+Lemma adts_frequency_refuted :
+  exists f h, new_adts f 2 AAClc 0 = Ok h /\ Z.of_N (adts_frequency h) <> f.
+Proof.
+  exists 88200%Z, (mkAdts 0 2 1 2 7 0 2047). split; [reflexivity|]. vm_compute. discriminate.
+Qed.
